@@ -108,6 +108,10 @@ FUNCS = [
     ("C15", "dataiter/list_of_dicts.py", "ListOfDicts.__mul__", [], "ListOfDicts_mul"),
     ("C15", "dataiter/list_of_dicts.py", "ListOfDicts.__rmul__", [], "ListOfDicts_rmul"),
     ("C15", "dataiter/list_of_dicts.py", "ListOfDicts.__getitem__", [], "ListOfDicts_getitem"),
+    ("C11", "dataiter/vector.py", "Vector.sort", [], "Vector_sort"),
+    ("C11", "dataiter/vector.py", "Vector.rank", [], "Vector_rank"),
+    ("C11", "dataiter/vector.py", "Vector.unique", [], "Vector_unique"),
+    ("C11", "dataiter/vector.py", "Vector._optimize_for_argsort", [], "Vector_optimize_for_argsort"),
     ("C16", "dataiter/list_of_dicts.py", "ListOfDicts.anti_join", [], "ListOfDicts_anti_join"),
     ("C16", "dataiter/list_of_dicts.py", "ListOfDicts.inner_join", [], "ListOfDicts_inner_join"),
     ("C16", "dataiter/list_of_dicts.py", "ListOfDicts.full_join", [], "ListOfDicts_full_join"),
@@ -216,6 +220,14 @@ class Translator:
         raise Unsupported("int: " + ast.dump(e))
 
     # ---- symbolic terms -------------------------------------------------------------------
+    @staticmethod
+    def is_dotted_name(e):
+        while isinstance(e, ast.Attribute):
+            e = e.value
+        if isinstance(e, ast.Call) and isinstance(e.func, ast.Name) and e.func.id == "super" and not e.args:
+            return True       # `super().method`: a name of the parent class's method, nothing computed
+        return isinstance(e, ast.Name)
+
     def root_is_local(self, e, env):
         while isinstance(e, (ast.Attribute, ast.Subscript, ast.Call)):
             e = e.value if not isinstance(e, ast.Call) else e.func
@@ -258,7 +270,8 @@ class Translator:
             if isinstance(e.func, ast.Name) and e.func.id in env and env[e.func.id][0] == "term":
                 # a call of a local that holds a callable (e.g. `extract = operator.itemgetter(...)`; `extract(item)`)
                 return f"(Term.app \"call\" [{', '.join([env[e.func.id][1]] + args)}])"
-            if isinstance(e.func, ast.Attribute) and self.root_is_local(e.func.value, env):
+            if isinstance(e.func, ast.Attribute) and (self.root_is_local(e.func.value, env) or not self.is_dotted_name(e.func.value)):
+                # a method of a value computed here (`np.unique(x).cumsum()`): the receiver is translated, not quoted
                 recv = self.term(e.func.value, env)
                 return f"(Term.app {lean_str('.' + e.func.attr)} [{', '.join([recv] + args)}])"
             return f"(Term.app {lean_str(fu)} [{', '.join(args)}])"
@@ -275,9 +288,10 @@ class Translator:
                 s = self.term(e.slice, env)
             return f"(Term.app \"getitem\" [{v}, {s}])"
         if isinstance(e, ast.Attribute):
-            if (ast.unparse(e.value), e.attr) in self.assigned:
-                raise Unsupported("attribute read after it was assigned in the same function: " + ast.unparse(e))
-            if self.root_is_local(e.value, env):
+            akey = "@" + ast.unparse(e.value) + "." + e.attr
+            if akey in env:
+                return env[akey][1]      # the value assigned to this attribute earlier ON THIS PATH (env is per path)
+            if self.root_is_local(e.value, env) or not self.is_dotted_name(e.value):
                 return f"(Term.app {lean_str('.' + e.attr)} [{self.term(e.value, env)}])"
             return f"(Term.sym {lean_str(ast.unparse(e))})"
         if isinstance(e, ast.UnaryOp):
@@ -304,6 +318,8 @@ class Translator:
             return f"(Term.app \"slice\" [{', '.join(parts)}])"
         if isinstance(e, ast.Starred):
             return f"(Term.app \"*\" [{self.term(e.value, env)}])"
+        if isinstance(e, ast.NamedExpr):
+            return f"(Term.app \"walrus\" [(Term.sym {lean_str(e.target.id)}), {self.term(e.value, env)}])"
         if isinstance(e, ast.Lambda):
             env2 = dict(env)
             params = [a.arg for a in e.args.posonlyargs + e.args.args + e.args.kwonlyargs]
@@ -337,6 +353,21 @@ class Translator:
             finally:
                 self.sym_depth -= 1
             return f"(Term.app {lean_str(type(e).__name__)} [{elt}, {', '.join(gens)}])"
+        if isinstance(e, ast.JoinedStr):
+            parts = []
+            for v in e.values:
+                if isinstance(v, ast.Constant):
+                    parts.append(f"(Term.sym {lean_str(repr(v.value))})")
+                else:
+                    spec = ast.unparse(v.format_spec) if v.format_spec is not None else ""
+                    parts.append(f"(Term.app \"format\" [{self.term(v.value, env)}, (Term.sym {lean_str(spec)}), (Term.int ({v.conversion} : Int))])")
+            return f"(Term.app \"fstring\" [{', '.join(parts)}])"
+        if isinstance(e, ast.Dict) and e.keys:
+            return ("(Term.app \"dict\" [" + ", ".join((f"(Term.app \"pair\" [{self.term(k, env)}, {self.term(v, env)}])" if k is not None
+                                                          else f"(Term.app \"**\" [{self.term(v, env)}])")
+                                                         for k, v in zip(e.keys, e.values)) + "])")
+        if isinstance(e, ast.Set):
+            return f"(Term.app \"set-literal\" [{', '.join(self.term(v, env) for v in e.elts)}])"
         if isinstance(e, (ast.Lambda, ast.GeneratorExp, ast.ListComp, ast.DictComp, ast.SetComp, ast.JoinedStr, ast.Dict, ast.Set)):
             # opaque by text; free local variables would be captured silently, so forbid them
             for n in ast.walk(e):
@@ -419,19 +450,58 @@ class Translator:
             elif isinstance(s, ast.If):
                 out.append(f"(Term.app \"if\" [{self.term(s.test, env)}, (Term.app \"block\" {self.sym_stmts(s.body, env)}), "
                            f"(Term.app \"block\" {self.sym_stmts(s.orelse, env)})])")
-            elif isinstance(s, ast.FunctionDef) and not s.decorator_list:
+            elif isinstance(s, ast.FunctionDef):
                 # a local function (e.g. the sort key defined per pass): its parameters are bound by name, free names
                 # denote what they denote where it is defined
                 env2 = dict(env)
                 params = [a.arg for a in s.args.posonlyargs + s.args.args + s.args.kwonlyargs]
-                if s.args.vararg or s.args.kwarg or s.args.defaults or s.args.kw_defaults:
+                if s.args.defaults or s.args.kw_defaults:
                     raise Unsupported("local function signature: " + s.name)
-                for a in params:
+                params += ["*" + a.arg for a in (s.args.vararg,) if a] + ["**" + a.arg for a in (s.args.kwarg,) if a]
+                for a in [x.lstrip("*") for x in params]:
                     env2[a] = ("term", f"(Term.sym {lean_str(a)})")
-                out.append(f"(Term.app \"def\" [(Term.sym {lean_str(s.name)}), (Term.app \"params\" ["
+                decos = "".join(f"(Term.app \"decorator\" [{self.term(d, env)}]), " for d in s.decorator_list)
+                out.append(f"(Term.app \"def\" [{decos}(Term.sym {lean_str(s.name)}), (Term.app \"params\" ["
                            f"{', '.join('(Term.sym ' + lean_str(a) + ')' for a in params)}]), "
                            f"(Term.app \"block\" {self.sym_stmts(s.body, env2)})])")
                 env[s.name] = ("term", f"(Term.sym {lean_str(s.name)})")
+            elif isinstance(s, ast.Assert):
+                out.append(f"(Term.app \"assert\" [{self.term(s.test, env)}])")
+            elif isinstance(s, (ast.Import, ast.ImportFrom)):
+                pass        # binds module names only; they stay global symbols
+            elif isinstance(s, ast.Try):
+                hs = []
+                for h in s.handlers:
+                    env_h = dict(env)
+                    if h.name:
+                        env_h[h.name] = ("term", f"(Term.sym {lean_str(h.name)})")
+                    hs.append(f"(Term.app \"except\" [(Term.sym {lean_str(ast.unparse(h.type) if h.type is not None else 'BaseException')}), "
+                              f"(Term.app \"block\" {self.sym_stmts(h.body, env_h)})])")
+                out.append(f"(Term.app \"try\" [(Term.app \"block\" {self.sym_stmts(s.body, env)}), {', '.join(hs)}"
+                           f", (Term.app \"else\" [(Term.app \"block\" {self.sym_stmts(s.orelse, env)})])"
+                           f", (Term.app \"finally\" [(Term.app \"block\" {self.sym_stmts(s.finalbody, env)})])])")
+            elif isinstance(s, ast.While):
+                if s.orelse:
+                    raise Unsupported("while-else")
+                out.append(f"(Term.app \"while\" [{self.term(s.test, env)}, (Term.app \"block\" {self.sym_stmts(s.body, env)})])")
+            elif isinstance(s, ast.With):
+                items = []
+                env_w = dict(env)
+                for it in s.items:
+                    nm = it.optional_vars.id if isinstance(it.optional_vars, ast.Name) else None
+                    items.append(f"(Term.app \"as\" [{self.term(it.context_expr, env_w)}, (Term.sym {lean_str(nm or '_')})])")
+                    if nm:
+                        env_w[nm] = ("term", f"(Term.sym {lean_str(nm)})")
+                out.append(f"(Term.app \"with\" [{', '.join(items)}, (Term.app \"block\" {self.sym_stmts(s.body, env_w)})])")
+            elif isinstance(s, ast.AugAssign) and isinstance(s.target, (ast.Subscript, ast.Attribute)):
+                out.append(f"(Term.app \"store\" [{self.term(s.target, env)}, (Term.app {lean_str(type(s.op).__name__ + '=')} "
+                           f"[{self.term(s.target, env)}, {self.term(s.value, env)}])])")
+            elif isinstance(s, ast.Assign) and len(s.targets) == 1 and isinstance(s.targets[0], ast.Tuple):
+                tgt = s.targets[0]
+                out.append(f"(Term.app \"assign\" [{self.term(tgt, {**env, **{n.id: ('term', '(Term.sym ' + lean_str(n.id) + ')') for n in ast.walk(tgt) if isinstance(n, ast.Name)}})}, {self.term(s.value, env)}])")
+                for n in ast.walk(tgt):
+                    if isinstance(n, ast.Name):
+                        env[n.id] = ("term", f"(Term.sym {lean_str(n.id)})")
             elif isinstance(s, ast.Delete):
                 out.append(f"(Term.app \"del\" [{', '.join(self.term(t_, env) for t_ in s.targets)}])")
             elif isinstance(s, ast.Continue):
@@ -484,6 +554,52 @@ class Translator:
             return self.block(rest, env, effs, depth)
         if isinstance(s, ast.Pass):
             return self.block(rest, env, effs, depth)
+        if isinstance(s, (ast.Import, ast.ImportFrom)):
+            return self.block(rest, env, effs, depth)         # binds module names only; they stay global symbols
+        if isinstance(s, ast.Delete):
+            v = f"eff{len(effs)}"
+            return (f"{ind}let {v} : Term := (Term.app \"del\" [{', '.join(self.term(t_, env) for t_ in s.targets)}]);\n"
+                    + self.block(rest, env, effs + [v], depth))
+        if isinstance(s, ast.Assert):
+            v = f"eff{len(effs)}"
+            return f"{ind}let {v} : Term := (Term.app \"assert\" [{self.term(s.test, env)}]);\n" + self.block(rest, env, effs + [v], depth)
+        if isinstance(s, ast.With):
+            # `with ctx as f: body`: f is "the resource opened from ctx"; the body runs in sequence (where the block
+            # ends — when the resource is closed — is not represented)
+            code, env2, effs2 = "", dict(env), list(effs)
+            for it in s.items:
+                v = f"eff{len(effs2)}"
+                code += f"{ind}let {v} : Term := (Term.app \"with\" [{self.term(it.context_expr, env2)}]);\n"
+                effs2.append(v)
+                if isinstance(it.optional_vars, ast.Name):
+                    env2[it.optional_vars.id] = ("term", v)
+                elif it.optional_vars is not None:
+                    raise Unsupported("with target")
+            return code + self.block(list(s.body) + rest, env2, effs2, depth)
+        if isinstance(s, ast.FunctionDef):
+            lv = sanitize(s.name) + "'"
+            t = self._sym_stmts([s], dict(env))
+            env2 = dict(env)
+            env2[s.name] = ("term", lv)
+            self.sym_depth += 0
+            return f"{ind}let {lv} : Term := (Term.app \"local-def\" {self.sym_stmts([s], env)});\n" + self.block(rest, env2, effs, depth)
+        if isinstance(s, (ast.Try, ast.While)):
+            # a compound statement kept whole, as one symbolic effect; names it assigns are, afterwards, "their value after it"
+            v = f"eff{len(effs)}"
+            code = f"{ind}let {v} : Term := (Term.app \"stmt\" {self.sym_stmts([s], env)});\n"
+            env2 = dict(env)
+            seen = []
+            for n in ast.walk(s):
+                tgts = n.targets if isinstance(n, ast.Assign) else [n.target] if isinstance(n, (ast.AugAssign, ast.For)) else []
+                for t_ in tgts:
+                    for nn in ast.walk(t_):
+                        if isinstance(nn, ast.Name) and isinstance(nn.ctx, ast.Store) and nn.id not in seen:
+                            seen.append(nn.id)
+            for nm in seen:
+                lv = sanitize(nm) + "'"
+                code += f"{ind}let {lv} : Term := (Term.app \"value-after-loop\" [(Term.sym {lean_str(nm)}), {v}]);\n"
+                env2[nm] = ("term", lv)
+            return code + self.block(rest, env2, effs + [v], depth)
         if isinstance(s, ast.Expr) and isinstance(s.value, (ast.Yield, ast.YieldFrom)):
             # a generator method: what it yields, in order, is part of the effect list
             v = f"eff{len(effs)}"
@@ -535,9 +651,12 @@ class Translator:
             v = f"eff{len(effs)}"
             recv = self.term(tgt.value, env)
             val = self.term(s.value, env)
-            self.assigned.add((ast.unparse(tgt.value), tgt.attr))
-            return (f"{ind}let {v} : Term := (Term.app \"setattr\" [{recv}, (Term.sym {lean_str(tgt.attr)}), {val}]);\n"
-                    + self.block(rest, env, effs + [v], depth))
+            env2 = dict(env)
+            av = f"attr{len(effs)}_{depth}'"
+            env2["@" + ast.unparse(tgt.value) + "." + tgt.attr] = ("term", av)
+            return (f"{ind}let {av} : Term := {val};\n"
+                    f"{ind}let {v} : Term := (Term.app \"setattr\" [{recv}, (Term.sym {lean_str(tgt.attr)}), {av}]);\n"
+                    + self.block(rest, env2, effs + [v], depth))
         if isinstance(s, ast.Assign) and len(s.targets) == 1 and isinstance(s.targets[0], ast.Subscript):
             # `x[key] = value`: an effect; later reads of `x` still denote the object (stores are not replayed)
             v = f"eff{len(effs)}"
